@@ -173,6 +173,103 @@ func reportBackgrounds() []struct {
 	}
 }
 
+// checkFullReport compares all three nested reports of an environmental report.
+func checkFullReport(r *ev.Run, cs map[string]any, rep *report.EnvironmentalReport, verLabel string, tok map[string]string, lc langCase) {
+	if rep == nil || rep.TemporalReport == nil || rep.TemporalReport.BaseReport == nil {
+		r.Violate(ev.Violation{Kind: "report-nil", Case: cs, Observed: "nil report or embedded report", Expected: "three nested reports"})
+		return
+	}
+	compareReport(r, cs, 2, ownFields(reflect.ValueOf(rep).Elem()), expectedReport(2, verLabel, tok, lc.tag), lc.exact)
+	compareReport(r, cs, 1, ownFields(reflect.ValueOf(rep.TemporalReport).Elem()), expectedReport(1, verLabel, tok, lc.tag), lc.exact)
+	compareReport(r, cs, 0, ownFields(reflect.ValueOf(rep.TemporalReport.BaseReport).Elem()), expectedReport(0, verLabel, tok, lc.tag), lc.exact)
+}
+
+// languageOrders: every ordered pair of language settings (no option, en, ja, und, fr), one report
+// after the other in one goroutine, on the same and on different objects; the second report must
+// be in its own language whatever was requested before.
+func languageOrders(r *ev.Run, langs []langCase, n *int64) {
+	bgs := reportBackgrounds()
+	ls := langs[:5]
+	for i, a := range ls {
+		for j, b := range ls {
+			for k := 0; k < 2; k++ {
+				bg1, bg2 := bgs[(i+j)%len(bgs)], bgs[(i+j+k)%len(bgs)]
+				s1, s2 := canonicalWritten(3, 2, bg1.ver, bg1.tok), canonicalWritten(3, 2, bg2.ver, bg2.tok)
+				e1, err1 := v3.NewEnvironmental().Decode(s1)
+				e2, err2 := v3.NewEnvironmental().Decode(s2)
+				if err1 != nil || err2 != nil {
+					continue
+				}
+				if k == 0 {
+					e2 = e1
+				}
+				first := report.NewEnvironmental(e1, a.opts...)
+				second := report.NewEnvironmental(e2, b.opts...)
+				*n += 2
+				checkFullReport(r, map[string]any{"vector": s1, "language": a.name, "report": "NewEnvironmental", "sequence": "first report"}, first, bg1.ver, bg1.tok, a)
+				checkFullReport(r, map[string]any{"vector": s2, "language": b.name, "report": "NewEnvironmental", "sequence": "built right after a report in language " + a.name + " of " + s1}, second, bg2.ver, bg2.tok, b)
+				// lower-level constructors in the same order
+				t1 := report.NewTemporal(e1.TemporalMetrics(), a.opts...)
+				b2 := report.NewBase(e2.BaseMetrics(), b.opts...)
+				*n += 2
+				if t1 != nil && b2 != nil {
+					compareReport(r, map[string]any{"vector": s2, "language": b.name, "report": "NewBase", "sequence": "built right after NewTemporal in language " + a.name}, 0, ownFields(reflect.ValueOf(b2).Elem()), expectedReport(0, bg2.ver, bg2.tok, b.tag), b.exact)
+				}
+			}
+		}
+	}
+}
+
+// reportsAfterAssignment: report, assign one exported metric field (or the version) of the same
+// object, report again in the same language: the second report shows the object as it is now.
+func reportsAfterAssignment(r *ev.Run, langs []langCase, n *int64) {
+	for _, bg := range reportBackgrounds()[:2] {
+		s := canonicalWritten(3, 2, bg.ver, bg.tok)
+		for _, lc := range langs {
+			for _, m := range spec.V3 {
+				en := lib.EnumOf(3, m.Name)
+				for ci, c := range m.Codes {
+					if c.Code == bg.tok[m.Name] {
+						continue
+					}
+					em, err := v3.NewEnvironmental().Decode(s)
+					if err != nil {
+						continue
+					}
+					_ = report.NewEnvironmental(em, lc.opts...)
+					lib.SetField(em, m.Name, en.Consts[ci])
+					tok := copyTok(bg.tok)
+					tok[m.Name] = c.Code
+					rep := report.NewEnvironmental(em, lc.opts...)
+					*n++
+					cs := map[string]any{"vector": s, "language": lc.name, "report": "NewEnvironmental", "sequence": fmt.Sprintf("report, then field %s assigned the value for %s, then report again", m.Name, c.Code)}
+					if rep == nil || rep.TemporalReport == nil || rep.TemporalReport.BaseReport == nil {
+						r.Violate(ev.Violation{Kind: "report-nil", Case: cs, Observed: "nil", Expected: "report"})
+						continue
+					}
+					// the Vector fields follow Encode(), which reflects the assigned value as well
+					checkFullReport(r, cs, rep, bg.ver, tok, lc)
+					break // one alternative value per metric
+				}
+			}
+			// version label
+			em, err := v3.NewEnvironmental().Decode(s)
+			if err == nil {
+				_ = report.NewEnvironmental(em, lc.opts...)
+				other := "3.0"
+				ov := int(v3.V3_0)
+				if bg.ver == "3.0" {
+					other, ov = "3.1", int(v3.V3_1)
+				}
+				lib.SetV3Ver(em, ov)
+				rep := report.NewEnvironmental(em, lc.opts...)
+				*n++
+				checkFullReport(r, map[string]any{"vector": s, "language": lc.name, "report": "NewEnvironmental", "sequence": "report, then Ver assigned " + other + ", then report again"}, rep, other, bg.tok, lc)
+			}
+		}
+	}
+}
+
 // scoreSweep renders one vector for every attainable (level, score) pair, so that every score
 // value 0.0 … 10.0 that a level can take appears in a report score field at least once.
 func scoreSweep(r *ev.Run, langs []langCase, n *int64) {
@@ -238,6 +335,9 @@ func init() {
 			dev = 3
 		}
 		var n, nv int64
+		// single-threaded sequences first: they must not be disturbed by the parallel sweep below
+		r.Phase("language orders", func() { languageOrders(r, langs, &n) })
+		r.Phase("reports after field assignment", func() { reportsAfterAssignment(r, langs[:3], &n) })
 		for bi, bg := range reportBackgrounds() {
 			d := dev
 			_ = bi
